@@ -83,6 +83,7 @@ def run_tlc(workdir, module, cfg=None, env=None, workers=4, timeout=900, simulat
            "-noGenerateSpecTE", "-config", cfg + ".cfg"]
     if coverage:
         cmd += ["-coverage", "1"]
+    cmd += ["-seed", str(seed())]          # RandomSubset / simulation draw from VERIF_SEED
     if simulate:
         cmd += ["-simulate", simulate]
     cmd += [module + ".tla"]
